@@ -3,7 +3,12 @@
 
 Targets (TARGETS): `helpers` - five whole functions of helpers.cpp (-> coq/C01/Gen_Helpers.v); `typed_chain` - the dispatch
 chain that ends evaluate_binary_op_typed, cut out of the function (-> coq/C01/Gen_TypedChain.v); `check_type_range` - the
-closure TypeManager::check_type_range hands to evaluate_safe (-> coq/Cxx/Gen_CheckTypeRange.v, for property C04).
+closure TypeManager::check_type_range hands to evaluate_safe (-> coq/C04/Gen_CheckTypeRange.v, for property C04); `flat_index` -
+the member function Variable::calculate_flat_index of core/interpreter.h with its loop (-> coq/C05/Gen_FlatIndex.v, property C05):
+the std::vector objects it reads (its parameter, data members of *this) become the vector parameters of a Cxx.vfn; its `parts` are
+the copies of that loop elsewhere (ArrayManager, StructOperations, the float read path of the typed evaluator): REGIONS - the
+then-branch of one named `if` of a large function (optionally only up to the end of its first for loop) - whose result is the
+variable they compute and whose inputs are the vectors of the enclosing function they read.
 
     cxx_pure.py <repo-root> [target ...]        targets: see TARGETS (default: all)
 
@@ -63,9 +68,44 @@ TARGETS = {
     "check_type_range": {
         "source": "src/backend/interpreter/managers/types/manager.cpp",
         "functions": ["TypeManager::check_type_range"],
-        "dest": "coq/Cxx/Gen_CheckTypeRange.v",
+        "dest": "coq/C04/Gen_CheckTypeRange.v",
         "lambda_body": {"enums": {"TypeInfo": "TInt"}},
         "prop": "C04",
+    },
+    # Variable::calculate_flat_index (C05): a const member function with a for loop over two std::vectors.  `indices` (const
+    # std::vector<int> &) and the data member array_type_info.dimensions (std::vector<ArrayDimension>, of which only the int
+    # field `size` is read: the vector of those fields) become the vector parameters of a Cxx.vfn
+    # further parts (same destination file): the copies of that loop that bypass calculate_flat_index - the `array_dimensions`
+    # branch of ArrayManager::get/setMultidimensional*ArrayElement*: the then-branch of `if (!var.array_dimensions.empty())` is
+    # cut out of the function; the vectors it reads (indices, int_indices, var.array_dimensions) become vector parameters, the
+    # variable it computes (flat_index, declared before the if and first assigned at the top of the branch) is returned
+    "flat_index": {
+        "source": "src/backend/interpreter/core/interpreter.h",
+        "functions": ["Variable::calculate_flat_index"],
+        "dest": "coq/C05/Gen_FlatIndex.v",
+        "vectors": True,
+        "prop": "C05",
+        "parts": [
+            {"source": "src/backend/interpreter/managers/arrays/manager.cpp",
+             "functions": ["ArrayManager::getMultidimensionalArrayElementTyped",
+                           "ArrayManager::setMultidimensionalArrayElement|void (Variable &, const std::vector<int64_t> &, int64_t)",
+                           "ArrayManager::setMultidimensionalArrayElement|void (Variable &, const std::vector<int64_t> &, double)",
+                           "ArrayManager::getMultidimensionalStringArrayElement",
+                           "ArrayManager::setMultidimensionalStringArrayElement"],
+             "names": ["get_typed_flat", "set_int_flat", "set_double_flat", "get_string_flat", "set_string_flat"],
+             "region": {"if_cond": "!var.array_dimensions.empty()", "result": "flat_index"}},
+            # the read path of obj.member[i]...[k]: compares the int64_t subscripts directly, computes in size_t
+            {"source": "src/backend/interpreter/managers/structs/operations.cpp",
+             "functions": ["StructOperations::get_struct_member_multidim_array_element"],
+             "names": ["member_read_flat"],
+             "region": {"if_cond": "member_var->is_multidimensional && !member_var->array_dimensions.empty()", "result": "flat_index",
+                        "through_for": True}},
+            # the read path of float / double / quad arrays: NO per-dimension test (known finding of C05)
+            {"source": "src/backend/interpreter/evaluator/core/evaluator.cpp",
+             "functions": ["ExpressionEvaluator::evaluate_typed_expression_internal"],
+             "names": ["float_read_flat"],
+             "region": {"if_cond": "var->is_multidimensional && indices.size() > 1", "result": "flat_index", "through_for": True}},
+        ],
     },
 }
 
@@ -133,7 +173,7 @@ def _parse_concatenated_json(txt):
 def clang_functions(repo, source, qnames, use_cache=True):
     """Returns ({qualified name: FunctionDecl JSON}, info). One clang run per source file (cached)."""
     info = {"cache": "miss", "clang_s": 0.0}
-    flt = _common_prefix(qnames)
+    flt = _common_prefix([q.partition("|")[0] for q in qnames])
     key = _inputs_hash(repo, source) + "-" + _sha((source + "|" + flt + "|" + ",".join(qnames)).encode())[:12]
     cpath = os.path.join(CACHE, key + ".json")
     if use_cache and os.path.exists(cpath):
@@ -154,9 +194,11 @@ def clang_functions(repo, source, qnames, use_cache=True):
     decls = _parse_concatenated_json(p.stdout.decode("utf-8", "replace"))
     data = {}
     for q in qnames:
-        short = q.split("::")[-1]
+        qn, _, want_type = q.partition("|")         # "Class::name|type": one of several overloads
+        short = qn.split("::")[-1]
         defs = [d for d in decls if d.get("kind") in ("FunctionDecl", "CXXMethodDecl") and d.get("name") == short
-                and any(c.get("kind") == "CompoundStmt" for c in d.get("inner", []))]
+                and any(c.get("kind") == "CompoundStmt" for c in d.get("inner", []))
+                and (not want_type or d.get("type", {}).get("qualType") == want_type)]
         if len(defs) != 1:
             raise Untranslatable({"kind": "FunctionDecl"}, "%d definitions of %s found in %s (filter %s)" % (len(defs), q, source, flt))
         data[q] = defs[0]
@@ -268,6 +310,14 @@ class Ctx:
         self.sparam_text = None     # chain mode: the source text of the string the chain dispatches on (node->op)
         self.enums = {}             # enum type name -> the Cxx integer type that represents it
         self.labels = []            # (enumerator name, value) of the case labels met
+        self.vectors = False        # vector mode: std::vector objects that are only read become vector parameters
+        self.vec_params = {}        # decl id of a `const std::vector<T> &` parameter -> (name, element type)
+        self.vec_members = {}       # name (source text of the member chain, plus "[].field" for a vector of structs) -> element type
+        self.struct_vecs = {}       # source text of a vector of structs -> set of the fields read from its elements
+        self.members = {}           # source text of an integer data member of *this that is read -> its type
+        self.region = False         # region mode: a piece of a larger function; what it reads from outside becomes parameters
+        self.vec_outer = {}         # region mode: decl id of a std::vector variable of the enclosing function -> (name, element type)
+        self.region_top = set()     # region mode: ids of the top-level statements of the region
 
     def text_of(self, node):
         """Source text of a node (whitespace-normalised); None if its range is not plain text of the file."""
@@ -283,7 +333,7 @@ class Ctx:
         if "expansionLoc" in rng:
             rng = rng["expansionLoc"]
         off = rng.get("offset")
-        if off is None or off > len(self.src) or "file" in rng and not rng["file"].endswith(".cpp"):
+        if off is None or off > len(self.src) or "file" in rng and not rng["file"].endswith((".cpp", ".h")):
             return None
         return self.src.count(b"\n", 0, off) + 1
 
@@ -406,6 +456,171 @@ def expr(n, ctx):
         return "(EVar %s)" % coq_string(txt), "TBool"
 
 
+VEC_TYPE = re.compile(r"^std::vector<\s*(.+?)\s*(?:,\s*std::allocator<.*>\s*)?>$")
+STRUCT_VEC_MARK = "\x00size-of:"
+
+
+def vector_elem(t):
+    """The element type spelled in a std::vector type (None if the type is not a std::vector)."""
+    for q in (t.get("desugaredQualType"), t.get("qualType")):
+        if not q:
+            continue
+        q = re.sub(r"\bconst\b|&", "", q).strip()
+        m = VEC_TYPE.match(q)
+        if m:
+            return m.group(1).strip()
+    return None
+
+
+def strip_noop(n):
+    while n.get("kind") in ("ImplicitCastExpr", "ParenExpr") and n.get("castKind", "NoOp") == "NoOp" and len(kids(n)) == 1:
+        n = kids(n)[0]
+    return n
+
+
+def this_member_chain(n, ctx):
+    """a.b.c with a a data member of *this (MemberExpr chain ending in CXXThisExpr): its source text; None otherwise."""
+    cur, names = n, []
+    while cur.get("kind") == "MemberExpr" and len(kids(cur)) == 1:
+        names.append(cur.get("name"))
+        arrow = cur.get("isArrow")
+        cur = strip_noop(kids(cur)[0])
+        if arrow and cur.get("kind") == "ImplicitCastExpr" and cur.get("castKind") == "LValueToRValue" and len(kids(cur)) == 1:
+            cur = strip_noop(kids(cur)[0])          # p->m: the pointer variable p is read
+    if not names or not all(names):
+        return None
+    if cur.get("kind") == "CXXThisExpr":
+        return ".".join(reversed(names))
+    if ctx.region and cur.get("kind") == "DeclRefExpr" and cur.get("referencedDecl", {}).get("kind") in ("ParmVarDecl", "VarDecl"):
+        # a data member (chain) of an object of the enclosing function: named by its source text
+        txt = ctx.text_of(n)
+        return re.sub(r"\s+", "", txt) if txt and re.match(r"^[\w.>\- ]+$", txt) else None
+    return None
+
+
+def vector_ref(n, ctx):
+    """A std::vector object that the function only reads: a `const std::vector<T> &` parameter, or a data member (chain) of *this
+    in a const member function.  Returns (name, element type spelling) or None."""
+    if not ctx.vectors:
+        return None
+    n = strip_noop(n)
+    el = vector_elem(n.get("type", {}))
+    if el is None:
+        return None
+    # region mode: a vector of the enclosing function need not be const - every use other than size() / empty() / v[i] read as a
+    # value is refused by the translator, so nothing in the region modifies it
+    if "const" not in n.get("type", {}).get("qualType", "") and not ctx.region:
+        raise Untranslatable(n, "std::vector object that is not const here (the fragment has no writes to vectors)", ctx)
+    if n.get("kind") == "DeclRefExpr":
+        ref = n.get("referencedDecl", {})
+        if ref.get("id") in ctx.vec_params:
+            return ctx.vec_params[ref.get("id")][0], el
+        if ctx.region and ref.get("kind") in ("ParmVarDecl", "VarDecl") and ref.get("name"):
+            t = elem_ity(el, n, ctx, "outer vector")
+            if t is None:
+                raise Untranslatable(n, "outer std::vector<%s> %s" % (el, ref.get("name")), ctx)
+            ctx.vec_outer.setdefault(ref.get("id"), (ref.get("name"), t))
+            return ref.get("name"), el
+        raise Untranslatable(n, "std::vector %s %r that is not a const reference parameter" % (ref.get("kind"), ref.get("name")), ctx)
+    name = this_member_chain(n, ctx)
+    if name is None:
+        raise Untranslatable(n, "std::vector object that is neither a parameter nor a data member of *this", ctx)
+    return name, el
+
+
+def elem_ity(el, node, ctx, what):
+    t = TYPES.get({"int64_t": "long", "uint64_t": "unsigned long", "size_t": "unsigned long", "std::size_t": "unsigned long",
+                   "long long": "long", "unsigned long long": "unsigned long"}.get(el, el))
+    if t is None or t in ("TBool", "TLDouble"):
+        return None
+    return t
+
+
+def vector_of_ints(n, ctx, why):
+    """(name, Cxx element type) of a vector of integers; registers a member vector as a parameter."""
+    vr = vector_ref(n, ctx)
+    if vr is None:
+        return None
+    name, el = vr
+    t = elem_ity(el, n, ctx, why)
+    if t is None:
+        return name, None, el
+    if strip_noop(n).get("kind") != "DeclRefExpr":
+        if ctx.vec_members.setdefault(name, t) != t:
+            raise Untranslatable(n, "vector %s used at two element types" % name, ctx)
+    return name, t, el
+
+
+def vec_subscript(n, ctx):
+    """v[i] (CXXOperatorCallExpr operator[] on a read-only vector), possibly followed by .field when the elements are structs.
+    Returns (gallina, type) or None if n is not of that shape."""
+    n = strip_noop(n)
+    field = None
+    if n.get("kind") == "MemberExpr" and len(kids(n)) == 1 and strip_noop(kids(n)[0]).get("kind") == "CXXOperatorCallExpr" \
+            and not n.get("isArrow"):
+        field, fnode, n = n.get("name"), n, strip_noop(kids(n)[0])
+    if n.get("kind") != "CXXOperatorCallExpr" or callee_name(n) != "operator[]" or len(kids(n)) != 3:
+        return None
+    got = vector_of_ints(kids(n)[1], ctx, "subscript")
+    if got is None:
+        return None
+    name, t, el = got
+    if field is None:
+        if t is None:
+            raise Untranslatable(n, "element of a std::vector<%s> used as a whole (only integer elements, or one integer field of a struct element)" % el, ctx)
+    else:
+        if t is not None:
+            raise Untranslatable(n, "member %s of an integer vector element" % field, ctx)
+        t = ity(fnode, ctx, "type of the field %s of %s" % (field, el))
+        if t in ("TBool", "TLDouble"):
+            raise Untranslatable(fnode, "field %s of type %s" % (field, t), ctx)
+        ctx.struct_vecs.setdefault(name, set()).add(field)
+        name = "%s[].%s" % (name, field)
+        if ctx.vec_members.setdefault(name, t) != t:
+            raise Untranslatable(n, "vector %s used at two element types" % name, ctx)
+    gi, ti = expr(kids(n)[2], ctx)
+    if ti != "TULong":
+        raise Untranslatable(kids(n)[2], "vector subscript of type %s without the conversion to size_type" % ti, ctx)
+    return "(EVecAt %s %s)" % (coq_string(name), gi), t
+
+
+def vec_method(n, ctx):
+    """v.size() / v.empty() on a read-only vector."""
+    if n.get("kind") != "CXXMemberCallExpr" or len(kids(n)) != 1:
+        return None
+    m = kids(n)[0]
+    if m.get("kind") != "MemberExpr" or m.get("name") not in ("size", "empty") or len(kids(m)) != 1 or m.get("isArrow"):
+        return None
+    got = vector_of_ints(kids(m)[0], ctx, m.get("name"))
+    if got is None:
+        return None
+    name, t, el = got
+    if t is None:
+        # a vector of structs: its length is the length of the vector of the one field that is read (resolved at the end)
+        ctx.struct_vecs.setdefault(name, set())
+        name = STRUCT_VEC_MARK + name + "\x00"
+    if m.get("name") == "size":
+        check_type(n, "TULong", ctx)
+        return "(EVecSize %s)" % coq_string(name), "TULong"
+    check_type(n, "TBool", ctx)
+    return "(EVecEmpty %s)" % coq_string(name), "TBool"
+
+
+def resolve_struct_vectors(text, ctx, node):
+    """EVecSize / EVecEmpty of a vector of structs -> of the vector of its (single) field that is read."""
+    for base, fields in sorted(ctx.struct_vecs.items()):
+        mark = STRUCT_VEC_MARK + base + "\x00"
+        if len(fields) != 1:
+            if mark in text or len(fields) > 1:
+                raise Untranslatable(node, "vector of structs %s: %d of its fields are read (%s); exactly one is supported" % (
+                    base, len(fields), ", ".join(sorted(fields)) or "only its size"), ctx)
+            continue
+        text = text.replace(mark, "%s[].%s" % (base, sorted(fields)[0]))
+    if STRUCT_VEC_MARK in text:
+        raise Untranslatable(node, "size of a vector of structs none of whose fields is read", ctx)
+    return text
+
+
 # expressions: returns (gallina term, Cxx type)
 def expr1(n, ctx):
     ctx.nodes += 1
@@ -421,6 +636,20 @@ def expr1(n, ctx):
             inner = ch[0]
             while inner.get("kind") == "ParenExpr" and len(kids(inner)) == 1:
                 inner = kids(inner)[0]
+            if ctx.vectors:
+                got = vec_subscript(inner, ctx)
+                if got is not None:
+                    if ity(n, ctx) != got[1]:
+                        raise Untranslatable(n, "vector element read at type %s but stored as %s" % (ity(n, ctx), got[1]), ctx)
+                    return got
+                mname = this_member_chain(strip_noop(inner), ctx)
+                if mname is not None and vector_elem(inner.get("type", {})) is None:
+                    t = ity(inner, ctx, "type of the data member %s" % mname)
+                    if "const" not in inner.get("type", {}).get("qualType", "") and not ctx.region:
+                        raise Untranslatable(inner, "data member %s that is not const here" % mname, ctx)
+                    if ctx.members.setdefault(mname, t) != t:
+                        raise Untranslatable(inner, "data member %s used at two types" % mname, ctx)
+                    return "(EVar %s)" % coq_string(mname), t
             if inner.get("kind") != "DeclRefExpr":
                 raise Untranslatable(n, "lvalue-to-rvalue conversion of something that is not a plain name (%s)" % inner.get("kind"), ctx)
             return expr(inner, ctx)
@@ -517,6 +746,11 @@ def expr1(n, ctx):
             lo, hi = RANGE[t]
             return "(ELit %s %s)" % (t, coq_z(hi if m.group(2) == "max" else lo)), t
         raise Untranslatable(n, "call of %s (only std::numeric_limits<T>::max() / min() are understood)" % callee_name(n), ctx)
+    if k == "CXXMemberCallExpr" and ctx.vectors:
+        got = vec_method(n, ctx)
+        if got is not None:
+            return got
+        raise Untranslatable(n, "member call other than size() / empty() of a read-only std::vector", ctx)
     if k == "CXXOperatorCallExpr":
         # op == "lit"   /   "lit" == op      on the std::string parameter
         if callee_name(n) == "operator==" and len(ch) == 3:
@@ -543,6 +777,11 @@ SIDE_EFFECT_KINDS = ("CompoundAssignOperator", "CXXNewExpr", "CXXDeleteExpr", "L
 def assert_effect_free(n, ctx, root):
     """Arguments of a dropped diagnostic call must not do anything."""
     k = n.get("kind")
+    if k == "CallExpr" and callee_name(n) == "to_string" and (ctx.text_of(n) or "").startswith("std::to_string("):
+        # std::to_string(integer): builds a temporary std::string, nothing else [string.conversions]
+        for c in kids(n)[1:]:
+            assert_effect_free(c, ctx, root)
+        return
     if k in SIDE_EFFECT_KINDS:
         raise Untranslatable(root, "argument of a dropped %s call contains a %s" % (callee_name(root), k), ctx)
     if k == "UnaryOperator" and n.get("opcode") in ("++", "--"):
@@ -567,11 +806,17 @@ def message(n, ctx, root):
         return message(kids(n)[0], ctx, root)
     if k == "ImplicitCastExpr" and n.get("castKind") == "NoOp" and len(kids(n)) == 1:
         return message(kids(n)[0], ctx, root)
-    if is_sparam_ref(n, ctx):
+    if ctx.sparam is not None and is_sparam_ref(n, ctx):
         return "(MStr %s)" % coq_string(ctx.sparam[0])
+    if k == "CallExpr" and callee_name(n) == "to_string" and len(kids(n)) == 2 and (ctx.text_of(n) or "").startswith("std::to_string("):
+        # std::to_string(integer): the decimal representation [string.conversions] = Cxx.MDec
+        g, t = expr(kids(n)[1], ctx)
+        if t not in ("TInt", "TLong", "TULong", "TUInt"):
+            raise Untranslatable(n, "std::to_string of a %s" % t, ctx)
+        return "(MDec %s)" % g
     if k == "CXXOperatorCallExpr" and callee_name(n) == "operator+" and len(kids(n)) == 3:
         return "(MCat %s %s)" % (message(kids(n)[1], ctx, root), message(kids(n)[2], ctx, root))
-    raise Untranslatable(n, "exception text that is not \"literal\", the string parameter or a + of those", ctx)
+    raise Untranslatable(n, "exception text that is not \"literal\", the string parameter, std::to_string(integer) or a + of those", ctx)
 
 
 def throw_stmt(n, ctx):
@@ -712,9 +957,20 @@ def stmt(n, ctx):
     if k == "CompoundStmt":
         ctx.scopes.append({})
         try:
-            return seq([stmt(c, ctx) for c in ch])
+            # a block nested directly in a block is a scope of its own (the branches of an if and the body of a loop are
+            # scopes by the semantics of SIf / SWhile)
+            return seq([("SBlock", stmt(c, ctx)) if c.get("kind") == "CompoundStmt" else stmt(c, ctx) for c in ch])
         finally:
             ctx.scopes.pop()
+    if k in ("ForStmt", "WhileStmt"):
+        return loop_stmt(n, ctx)
+    if k == "CompoundAssignOperator" and len(ch) == 2:
+        return compound_assign(n, ctx)
+    if k == "UnaryOperator" and n.get("opcode") in ("++", "--") and len(ch) == 1:
+        name, t = local_lvalue(ch[0], n, ctx, n.get("opcode"))
+        if t == "TBool":
+            raise Untranslatable(n, "%s of a bool" % n.get("opcode"), ctx)
+        return "(%s %s)" % ("SIncr" if n.get("opcode") == "++" else "SDecr", coq_string(name))
     if k == "NullStmt":
         return "SSkip"
     if k == "ReturnStmt" and len(ch) == 0:
@@ -726,6 +982,17 @@ def stmt(n, ctx):
         ref = lhs.get("referencedDecl", {})
         if lhs.get("kind") != "DeclRefExpr" or ref.get("kind") not in ("VarDecl", "ParmVarDecl"):
             raise Untranslatable(n, "assignment to something that is not a plain variable", ctx)
+        if ctx.region and not any(ref.get("id") in sc for sc in ctx.scopes) and ref.get("id") not in ctx.outer:
+            # a variable of the enclosing function that the region has not read so far: its first assignment, at the top level of
+            # the region, is where the region's own copy starts to exist
+            if n.get("id") not in ctx.region_top or ref.get("kind") != "VarDecl":
+                raise Untranslatable(n, "first assignment to the outer variable %s inside a nested statement" % ref.get("name"), ctx)
+            t = ity(lhs, ctx, "type of the outer variable %s" % ref.get("name"))
+            g, te = expr(ch[1], ctx)
+            if ref.get("id") in ctx.outer:
+                raise Untranslatable(n, "outer variable %s read in its own first assignment" % ref.get("name"), ctx)
+            ctx.scopes[-1][ref.get("id")] = (ref.get("name"), t)
+            return "(SDecl %s %s %s)" % (t, coq_string(ref.get("name")), g)
         name, t = ctx.find_var(ref, lhs)
         if ref.get("id") in ctx.outer:
             raise Untranslatable(n, "assignment to the captured / outer variable %s" % name, ctx)
@@ -784,10 +1051,84 @@ def stmt(n, ctx):
     raise Untranslatable(n, "statement kind outside the fragment", ctx)
 
 
+COMPOUND_OPS = {"+=": "BAdd", "-=": "BSub", "*=": "BMul", "/=": "BDiv", "%=": "BRem", "&=": "BAnd", "|=": "BOr", "^=": "BXor",
+                "<<=": "BShl", ">>=": "BShr"}
+
+
+def local_lvalue(lhs, n, ctx, what):
+    while lhs.get("kind") == "ParenExpr" and len(kids(lhs)) == 1:
+        lhs = kids(lhs)[0]
+    ref = lhs.get("referencedDecl", {})
+    if lhs.get("kind") != "DeclRefExpr" or ref.get("kind") not in ("VarDecl", "ParmVarDecl"):
+        raise Untranslatable(n, "%s of something that is not a plain variable" % what, ctx)
+    name, t = ctx.find_var(ref, lhs)
+    if ref.get("id") in ctx.outer:
+        raise Untranslatable(n, "%s of the captured / outer variable %s" % (what, name), ctx)
+    if ity(lhs, ctx) != t:
+        raise Untranslatable(lhs, "name %s used at type %s but declared %s" % (name, ity(lhs, ctx), t), ctx)
+    return name, t
+
+
+def compound_assign(n, ctx):
+    """x op= e as a statement, x a local variable: Cxx.SAssignOp (= x = x op e, [expr.ass]/7)."""
+    op = n.get("opcode")
+    if op not in COMPOUND_OPS:
+        raise Untranslatable(n, "compound assignment %s" % op, ctx)
+    name, t = local_lvalue(kids(n)[0], n, ctx, op)
+    g, te = expr(kids(n)[1], ctx)
+    rt = promote(t) if op in ("<<=", ">>=") else common(promote(t), promote(te))
+    for fld, want in (("computeResultType", rt), ("computeLHSType", rt)):
+        q = n.get(fld, {})
+        got = TYPES.get(re.sub(r"\s+", " ", re.sub(r"\bconst\b", "", q.get("desugaredQualType", q.get("qualType", ""))).strip()))
+        if got != want:
+            raise Untranslatable(n, "clang computes %s in %s (%s), the rules of Cxx.v in %s" % (op, q.get("qualType"), fld, want), ctx)
+    return "(SAssignOp %s %s %s)" % (COMPOUND_OPS[op], coq_string(name), g)
+
+
+def loop_stmt(n, ctx):
+    """for (init; cond; step) body  ->  Cxx.SFor;   while (cond) body  ->  SWhile.  No condition declarations; break and continue
+    are not in the fragment (any in the body is refused by stmt)."""
+    ch = kids(n)
+    if n.get("kind") == "WhileStmt":
+        if len(ch) != 2 or n.get("hasVar"):
+            raise Untranslatable(n, "while with a condition declaration", ctx)
+        init, cond, step, body = None, ch[0], None, ch[1]
+    else:
+        if len(ch) != 5 or ch[1].get("kind") is not None:
+            raise Untranslatable(n, "for statement of an unexpected shape (condition declaration?)", ctx)
+        init, cond, step, body = ch[0], ch[2], ch[3], ch[4]
+    if cond.get("kind") is None:
+        raise Untranslatable(n, "loop without a condition", ctx)
+    ctx.scopes.append({})
+    try:
+        gi = "SSkip" if init is None or init.get("kind") is None else stmt(init, ctx)
+        gc, tc = expr(cond, ctx)
+        if tc != "TBool":
+            raise Untranslatable(cond, "loop condition of type %s without a conversion to bool" % tc, ctx)
+        gs = "SSkip" if step is None or step.get("kind") is None else stmt(step, ctx)
+        ctx.scopes.append({})
+        try:
+            gb = stmt(body, ctx)
+        finally:
+            ctx.scopes.pop()
+    finally:
+        ctx.scopes.pop()
+    if n.get("kind") == "WhileStmt":
+        return ("SWhile", gc, gb)
+    return ("SFor", gi, gc, gs, gb)
+
+
 def render_stmt(s, ind):
     pad = " " * ind
     if isinstance(s, str):
         return pad + s
+    if s[0] == "SBlock":
+        return "%s(SBlock\n%s)" % (pad, render_stmt(s[1], ind + 1))
+    if s[0] == "SWhile":
+        return "%s(SWhile %s\n%s)" % (pad, s[1], render_stmt(s[2], ind + 1))
+    if s[0] == "SFor":
+        return "%s(SFor\n%s\n%s %s\n%s\n%s)" % (pad, render_stmt(s[1], ind + 1), " " * (ind + 1), s[2], render_stmt(s[3], ind + 1),
+                                                   render_stmt(s[4], ind + 1))
     if s[0] == "SSeq":
         # a right-nested sequence is printed flat
         items, cur = [], s
@@ -912,8 +1253,73 @@ def translate_lambda_body(qname, decl, src_bytes, spec):
             "outer_variables": [nm for nm, _ in ctx.outer.values()], "labels": labels}
 
 
-def translate_function(qname, decl, src_bytes):
+def translate_region(qname, decl, src_bytes, spec, gname):
+    """Cut the then-branch of `if (<spec.if_cond>)` out of a large function and translate it as a function of its own that
+    returns the variable <spec.result> it computes."""
     ctx = Ctx(qname, src_bytes)
+    ctx.abstract = True
+    ctx.vectors = True
+    ctx.region = True
+    name = decl.get("name")
+    loc = decl.get("loc", {})
+    if "offset" not in loc or src_bytes[loc["offset"]:loc["offset"] + loc.get("tokLen", 0)] != name.encode():
+        raise Untranslatable(decl, "source offsets do not point at the function's name in the given file", ctx)
+
+    def walk(n):
+        yield n
+        for c in kids(n):
+            yield from walk(c)
+    hits = [x for x in walk(decl) if x.get("kind") == "IfStmt" and kids(x) and ctx.text_of(kids(x)[0]) == spec["if_cond"]]
+    if len(hits) != 1:
+        raise Untranslatable(decl, "%d statements `if (%s)` in the function (exactly one expected)" % (len(hits), spec["if_cond"]), ctx)
+    ifs = hits[0]
+    if len(kids(ifs)) < 2 or kids(ifs)[1].get("kind") != "CompoundStmt" or ifs.get("hasInit") or ifs.get("hasVar"):
+        raise Untranslatable(ifs, "`if (%s)` without a braced then-branch" % spec["if_cond"], ctx)
+    region = kids(ifs)[1]
+    stmts = kids(region)
+    if spec.get("through_for"):
+        # only the statements up to and including the first for loop of the branch (what follows uses the result)
+        fors = [i for i, c in enumerate(stmts) if c.get("kind") == "ForStmt"]
+        if not fors:
+            raise Untranslatable(region, "no for loop at the top level of the branch `if (%s)`" % spec["if_cond"], ctx)
+        stmts = stmts[:fors[0] + 1]
+    b, e = ifs.get("range", {}).get("begin", {}), (stmts[-1] if spec.get("through_for") else region).get("range", {}).get("end", {})
+    if "offset" not in b or "offset" not in e:
+        raise Untranslatable(ifs, "region whose source range is not plain", ctx)
+    text = src_bytes[b["offset"]:e["offset"] + e.get("tokLen", 1)]
+    ctx.region_top = set(c.get("id") for c in stmts)
+    ctx.scopes.append({})
+    items = [("SBlock", stmt(c, ctx)) if c.get("kind") == "CompoundStmt" else stmt(c, ctx) for c in stmts]
+    res = [(nm, t) for nm, t in ctx.scopes[-1].values() if nm == spec["result"]]
+    if len(res) != 1:
+        raise Untranslatable(region, "the region does not compute a variable %s of its own at its top level" % spec["result"], ctx)
+    items.append("(SReturn (EVar %s))" % coq_string(spec["result"]))
+    tree = seq(items)
+    if ctx.flags:
+        raise Untranslatable(decl, "the region consults %s, which is outside the fragment" % ctx.flags[0], ctx)
+    params = sorted((nm, t) for nm, t in ctx.outer.values()) + sorted(ctx.members.items())
+    vparams = sorted(ctx.vec_outer.values()) + sorted(ctx.vec_members.items())
+    if len(set(p for p, _ in params)) != len(params) or len(set(p for p, _ in vparams)) != len(vparams):
+        raise Untranslatable(decl, "two different things the region reads have the same name", ctx)
+    what = "%s (the branch `if (%s)`%s)" % (qname.partition("|")[0] + (" : " + qname.partition("|")[2] if "|" in qname else ""), spec["if_cond"],
+                                          " up to the end of its for loop" if spec.get("through_for") else "")
+    gal = ("  {| f_name := %s; f_ret := %s; f_sparam := \"\";\n"
+           "     f_params := [%s];\n"
+           "     f_body :=\n%s |}") % (
+        coq_string(what), res[0][1], "; ".join("(%s, %s)" % (coq_string(p), t) for p, t in params), render_stmt(tree, 7))
+    gal = resolve_struct_vectors(gal, ctx, decl)
+    gal = "Definition fn_%s : vfn :=\n {| v_fn :=\n%s;\n    v_vecs := [%s] |}." % (
+        gname, gal, "; ".join("(%s, %s)" % (coq_string(p), t) for p, t in vparams))
+    return {"name": gname, "qname": what, "sha256": _sha(text), "gallina": gal, "lines": (ctx.line_of(ifs), None),
+            "nodes": ctx.nodes, "dropped_calls": ctx.dropped, "params": params, "sparam": None, "vector_params": vparams,
+            "outer_variables": [nm for nm, _ in ctx.outer.values()]}
+
+
+def translate_function(qname, decl, src_bytes, vectors=False):
+    ctx = Ctx(qname, src_bytes)
+    ctx.vectors = vectors
+    if vectors and decl.get("kind") == "CXXMethodDecl" and not decl.get("type", {}).get("qualType", "").rstrip().endswith("const"):
+        raise Untranslatable(decl, "member function that is not const (it could modify the data members it reads)", ctx)
     name = decl.get("name")
     loc = decl.get("loc", {})
     rng = decl.get("range", {})
@@ -925,6 +1331,7 @@ def translate_function(qname, decl, src_bytes):
     text = src_bytes[b["offset"]:e["offset"] + e.get("tokLen", 1)]
     rtype = decl.get("type", {}).get("qualType", "")
     ret_q = rtype.split("(")[0].strip()
+    vparams = []
     ret = {"int64_t": "TLong", "uint64_t": "TULong"}.get(ret_q) or TYPES.get(ret_q)
     if ret is None:
         raise Untranslatable(decl, "return type %r is not an integer type of the fragment" % ret_q, ctx)
@@ -936,6 +1343,13 @@ def translate_function(qname, decl, src_bytes):
                 if ctx.sparam is not None:
                     raise Untranslatable(c, "more than one std::string parameter", ctx)
                 ctx.sparam = (c.get("name"), c.get("id"))
+            elif vectors and vector_elem(c.get("type", {})) is not None:
+                q = c.get("type", {}).get("qualType", "")
+                el = elem_ity(vector_elem(c.get("type", {})), c, ctx, "parameter")
+                if not (q.startswith("const ") and q.rstrip().endswith("&")) or el is None or not c.get("name"):
+                    raise Untranslatable(c, "vector parameter %r is not a named `const std::vector<integer type> &`" % q, ctx)
+                ctx.vec_params[c.get("id")] = (c.get("name"), el)
+                vparams.append((c.get("name"), el))
             else:
                 t = ity(c, ctx, "parameter type")
                 if not c.get("name"):
@@ -953,19 +1367,34 @@ def translate_function(qname, decl, src_bytes):
     if len(set(p for p, _ in params)) != len(params):
         raise Untranslatable(decl, "duplicate parameter names", ctx)
     tree = stmt(body, ctx)
-    gal = ("Definition fn_%s : fn :=\n"
-           "  {| f_name := %s; f_ret := %s; f_sparam := %s;\n"
+    if vectors:
+        # data members of *this that are read: scalars become ordinary parameters, vectors vector parameters (after the declared ones)
+        params = params + sorted(ctx.members.items())
+        vparams = vparams + sorted((nm, t) for nm, t in ctx.vec_members.items())
+        if len(set(p for p, _ in params)) != len(params) or len(set(p for p, _ in vparams)) != len(vparams):
+            raise Untranslatable(decl, "a parameter and a data member have the same name", ctx)
+    gal = ("  {| f_name := %s; f_ret := %s; f_sparam := %s;\n"
            "     f_params := [%s];\n"
-           "     f_body :=\n%s |}.") % (
-        name, coq_string(qname), ret, coq_string(ctx.sparam[0] if ctx.sparam else ""),
+           "     f_body :=\n%s |}") % (
+        coq_string(qname), ret, coq_string(ctx.sparam[0] if ctx.sparam else ""),
         "; ".join("(%s, %s)" % (coq_string(p), t) for p, t in params), render_stmt(tree, 7))
-    return {"name": name, "qname": qname, "sha256": _sha(text), "gallina": gal, "lines": (ctx.line_of(decl), None),
-            "nodes": ctx.nodes, "dropped_calls": ctx.dropped, "params": params, "sparam": ctx.sparam[0] if ctx.sparam else None}
+    if vectors:
+        gal = resolve_struct_vectors(gal, ctx, decl)
+        gal = "Definition fn_%s : vfn :=\n {| v_fn :=\n%s;\n    v_vecs := [%s] |}." % (
+            name, gal, "; ".join("(%s, %s)" % (coq_string(p), t) for p, t in vparams))
+    else:
+        gal = "Definition fn_%s : fn :=\n%s." % (name, gal)
+    out = {"name": name, "qname": qname, "sha256": _sha(text), "gallina": gal, "lines": (ctx.line_of(decl), None),
+           "nodes": ctx.nodes, "dropped_calls": ctx.dropped, "params": params, "sparam": ctx.sparam[0] if ctx.sparam else None}
+    if vectors:
+        out["vector_params"] = vparams
+        out["members_read"] = sorted(ctx.members) + sorted(ctx.vec_members)
+    return out
 
 
 def render(target, source, fns):
     lines = [
-        "(* GENERATED by translators/cxx_pure.py from clang's AST (-ast-dump=json) of %s." % source,
+        "(* GENERATED by translators/cxx_pure.py from clang's AST (-ast-dump=json) of %s." % ", ".join([source] + [p["source"] for p in target.get("parts", [])]),
         "   Do not edit: rewritten by ./check %s whenever the C++ text of these functions changes." % target.get("prop", "C01"),
         "   Meaning of the terms: coq/Cxx/Cxx.v. *)",
         "From Coq Require Import ZArith String List.",
@@ -976,7 +1405,7 @@ def render(target, source, fns):
         "",
     ]
     for f in fns:
-        lines.append("(* %s : %s" % (source, f["qname"]))
+        lines.append("(* %s : %s" % (f.get("source", source), f["qname"]))
         lines.append("   sha256 of the function's source text: %s *)" % f["sha256"])
         lines.append(f["gallina"])
         lines.append("")
@@ -1000,7 +1429,18 @@ def regenerate(repo, target_name="helpers", dest=None, use_cache=True):
         elif "lambda_body" in tgt:
             fns = [translate_lambda_body(q, decls[q], src, tgt["lambda_body"]) for q in tgt["functions"]]
         else:
-            fns = [translate_function(q, decls[q], src) for q in tgt["functions"]]
+            fns = [translate_function(q, decls[q], src, bool(tgt.get("vectors"))) for q in tgt["functions"]]
+        for part in tgt.get("parts", []):
+            pdecls, pinfo = clang_functions(repo, part["source"], part["functions"], use_cache)
+            info["clang_s"] = round(info.get("clang_s", 0.0) + pinfo.get("clang_s", 0.0), 2)
+            if pinfo.get("cache") == "miss":
+                info["cache"] = "miss"
+            with open(os.path.join(repo, part["source"]), "rb") as fh:
+                psrc = fh.read()
+            for q, gname in zip(part["functions"], part["names"]):
+                f = translate_region(q, pdecls[q], psrc, part["region"], gname)
+                f["source"] = part["source"]
+                fns.append(f)
     except Untranslatable as e:
         info["problem"] = {"function": e.fn, "node": e.kind, "line": e.line, "why": e.why, "text": str(e)}
         info["wall_s"] = round(time.time() - t0, 2)
@@ -1008,7 +1448,7 @@ def regenerate(repo, target_name="helpers", dest=None, use_cache=True):
     for f in fns:
         info["functions"][f["qname"]] = {"sha256": f["sha256"], "ast_nodes": f["nodes"], "dropped_calls": f["dropped_calls"],
                                          "line": f["lines"][0]}
-        for extra in ("outer_variables", "flags"):
+        for extra in ("outer_variables", "flags", "vector_params", "members_read"):
             if extra in f:
                 info["functions"][f["qname"]][extra] = f[extra]
     txt = render(tgt, tgt["source"], fns)
